@@ -25,7 +25,7 @@ var props = map[string]*PropDef{
 		Technique:  "path-sensitive go/cfg dataflow over finite atoms; guard dominance; sink/producer audit",
 	},
 	"C03": {
-		Rules: []string{"ANYPATH-1", "INTERN-1", "NUMCONV-1", "CASE-SYM", "NS-1"},
+		Rules: []string{"ANYPATH-1", "INTERN-1", "NUMCONV-1", "CASE-SYM", "NS-1", "STALE-2"},
 		Decided: "the untyped fast routes are entered only under their documented guards and use the same primitives as the generic route (strconv.ParseFloat with 64 bits for every decoded float, makeString for strings, own duplicate check for objects); the string cache can only return a string equal to the input; \\u escapes are case-insensitive; the any-applicability marker of caller functions is accumulated over joined lists.",
 		NotDecided: "unescaping and float rounding themselves (value-level), equality of the trees produced by the different routes for all inputs.",
 		Technique:  "guard dominance; value-provenance tracing over definitions; path-sensitive equality tracking in makeString",
@@ -37,13 +37,13 @@ var props = map[string]*PropDef{
 		Technique:  "sibling agreement between marshal/unmarshal closures; table evaluation",
 	},
 	"C05": {
-		Rules: []string{"STALE-1", "TXN-1", "TXN-2", "TXN-3", "NAMES-1", "BUF-1", "PEEK-1", "NUMSTATE-1"},
+		Rules: []string{"STALE-1", "TXN-1", "TXN-2", "TXN-3", "NAMES-1", "BUF-1", "PEEK-1", "NUMSTATE-1", "STALE-2"},
 		Decided: "no buffer-relative position or alias is used after a call that may refill/move the decode buffer; a failed ReadToken/ReadValue leaves the abstract decoder state untouched and PeekKind/CheckNextValue never advance it (so retrying after a transient read error is sound); names are copied out before the buffer changes; fetch rebases baseOffset/prevEnd/prevStart consistently; the peek cache is consumed exactly once; the resumable number scanner resumes in a state that matches what it consumed.",
 		NotDecided: "equality of token sequences for all read schedules; the arithmetic of the resumable string scanner.",
 		Technique:  "path-sensitive go/cfg dataflow with inter-procedural taint (positions/aliases) and recomputed effect summaries",
 	},
 	"C06": {
-		Rules: []string{"TXN-1", "TXN-2", "TXN-3", "MATRIX", "DEPTH-1", "KIND-1", "OPT-5", "WS-1"},
+		Rules: []string{"TXN-1", "TXN-2", "TXN-3", "MATRIX", "DEPTH-1", "KIND-1", "OPT-5", "WS-1", "POOL-2"},
 		Decided: "a rejected WriteToken/WriteValue/AppendRaw leaves the abstract encoder state untouched on every feasible path (commit protocol), the state machine and the namespace set are transactional, scratch namespaces are balanced; the encoder columns of the recogniser matrix hold (duplicate names, UTF-8, string-only names, exhaustive dispatch, depth limit); tag flags are cleared on descent; token path and value path emit separators and whitespace in the same order.",
 		NotDecided: "that the accepted token sequences are exactly the grammar's prefixes; byte-for-byte formatting of every option combination.",
 		Technique:  "path-sensitive go/cfg dataflow (atoms: mutated, error nil-ness, namespace validity, name position) with recomputed effect summaries; sibling matrix",
@@ -55,7 +55,7 @@ var props = map[string]*PropDef{
 		Technique:  "path-sensitive go/cfg dataflow; table agreement",
 	},
 	"C08": {
-		Rules: []string{"NS-1", "NS-2", "NS-3", "MATRIX", "MAPCACHE-1", "TXN-1", "MERGE-1"},
+		Rules: []string{"NS-1", "NS-2", "NS-3", "MATRIX", "MAPCACHE-1", "TXN-1", "MERGE-1", "POOL-2"},
 		Decided: "every place that switches the coder's duplicate check off tracks names another way (struct seen-set, map key presence plus seen-set for pre-populated maps, untyped map), under no option other than AllowDuplicateNames; unknown/fallback members are inserted into the namespace before being skipped; encoder namespaces are only disabled for key kinds with a unique representation and no custom key marshaler; disabled namespaces are invalidated after a failed top-level call; all recogniser paths check duplicates and UTF-8 under exactly their option; the namespace's map cache stays complete.",
 		NotDecided: "later-wins/merge results under AllowDuplicateNames; equality after unescaping itself.",
 		Technique:  "guard dominance; path-sensitive go/cfg dataflow; sibling matrix",
@@ -109,13 +109,13 @@ var props = map[string]*PropDef{
 		Technique:  "structural ordering checks; bracket rule; path-sensitive consult-before-dispatch",
 	},
 	"C18": {
-		Rules: []string{"POOL-1", "POOL-2", "POOL-3", "POOL-4", "GLOBAL-1", "ONCE-1", "DET-1", "INTERN-1", "CYCLE-1", "ESCAPE-1"},
+		Rules: []string{"POOL-1", "POOL-2", "POOL-3", "POOL-4", "GLOBAL-1", "ONCE-1", "DET-1", "INTERN-1", "CYCLE-1", "ESCAPE-1", "STALE-2"},
 		Decided: "pooled coders are released to the matching pool by defer; every field of the resettable coder structures is reset or in the reviewed carry-over table; pooled buffers and the decoder's transient views only leave a call through a copy; coders are never reset onto leftover bytes; package-level state is immutable after init or concurrency-safe and no goroutines are started; lazily initialised arshaler state is read only after once.Do; map iteration order reaches the output only when Deterministic is off (or one entry); the cycle-detection set is emptied by the deferred leave; the string cache returns only equal strings.",
 		NotDecided: "absence of data races in general (only the library's own shared state is audited); byte-identical output under Deterministic when AllowDuplicateNames lets two keys collide.",
 		Technique:  "pairing/escape rules over type-checked syntax; path-sensitive dominance",
 	},
 	"C19": {
-		Rules: []string{"OPT-1", "OPT-2", "OPT-3", "OPT-4", "OPT-5", "OPT-6", "V1-1", "GLOBAL-1"},
+		Rules: []string{"OPT-1", "OPT-2", "OPT-3", "OPT-4", "OPT-5", "OPT-6", "OPT-7", "V1-1", "GLOBAL-1"},
 		Decided: "the flag constants form a consistent bit algebra with the documented v1 defaults; every boolean option constructor is injective and value-faithful; Join and GetOption agree on which flag guards which value field (including the nested *Struct case and the json-injected options); per-call options are saved and restored by defer before any mutation; struct-tag options are restored on every path; one-sided options are only read on their side; v1 entry points pass DefaultOptionsV1; the shared default option sets are never mutated.",
 		NotDecided: "the bit arithmetic of Flags.Join/Set/Get/Clear themselves (five-line bodies; their correctness is arithmetic).",
 		Technique:  "constant-table evaluation; path-sensitive check of constructors and scoping; sibling agreement of type switches",
